@@ -121,6 +121,56 @@ func runC41Scope(c *core.Check) {
 			c.Fail("C41.board-root", key, sel.Pos(), fmt.Sprintf("%s resolved the addressed board (%s) and then uses %s, the root board's objects: the element found and edited belongs to the root board whatever board was addressed", fname(fi), boardG.Name(), exprStr(sel)))
 			return true
 		})
+		// --- root graph handed to a helper after the board was resolved
+		if gParam != nil && gParam != boardG {
+			for _, call := range core.Calls(fi.Decl.Body, true) {
+				if call.Pos() < boardGPos {
+					continue
+				}
+				callee := core.CalleeOf(info, call)
+				if callee == nil || callee.Pkg() != pk.Types {
+					continue
+				}
+				switch callee.Name() {
+				case "recompile", "ReplaceBoardNode", "GetBoardGraph":
+					continue
+				}
+				for ai, a := range call.Args {
+					if core.ObjOf(info, a) != gParam {
+						continue
+					}
+					nroot++
+					key := fmt.Sprintf("board-root:%s:%s(arg %d)", fname(fi), callee.Name(), ai)
+					counts[key]++
+					if counts[key] > 1 {
+						key = fmt.Sprintf("%s#%d", key, counts[key])
+					}
+					h := c.P.Decl(callee)
+					if h == nil || h.Decl.Body == nil {
+						continue
+					}
+					// a callee that takes the board path as well resolves the board itself
+					if _, idx := boardPathParam(h); idx >= 0 {
+						c.Pass("C41.board-root", key, call.Pos(), "the callee receives the board path too")
+						continue
+					}
+					// only callees that look elements up on the graph they are given (<param>.Root…)
+					sig := callee.Type().(*types.Signature)
+					if ai >= sig.Params().Len() {
+						continue
+					}
+					hp := sig.Params().At(ai)
+					looksUp := core.Contains(h.Decl.Body, func(y ast.Node) bool {
+						sel, ok := y.(*ast.SelectorExpr)
+						return ok && sel.Sel.Name == "Root" && core.ObjOf(h.Pkg.TypesInfo, sel.X) == types.Object(hp)
+					})
+					if !looksUp {
+						continue
+					}
+					c.Fail("C41.board-root", key, call.Pos(), fmt.Sprintf("%s resolved the addressed board (%s) and then hands the root graph %s to %s: the helper searches or edits the root board's elements whatever board was addressed", fname(fi), boardG.Name(), gParam.Name(), callee.Name()))
+				}
+			}
+		}
 		// --- element-scope-decided
 		decided := map[types.Object]token.Pos{}
 		for _, call := range core.Calls(fi.Decl.Body, true) {
